@@ -805,13 +805,61 @@ Proof.
   destruct Hok as [H1 H2]. cbn [run fold_left]. apply IH; [apply Inv_step; assumption|exact H2].
 Qed.
 
-(* the two kinds of initial state *)
+(* views which a JSON document declares in its %VIEWS section only: the reader's own create_view calls are inside the
+   premises of every history theorem *)
+Lemma hist_okb_create_views vs : forall s, hist_okb s (map OpCreateView vs) = true.
+Proof. induction vs as [|v r IH]; intros s; [reflexivity|]. cbn [map hist_okb op_okb andb]. apply IH. Qed.
+
+Lemma load_views_Inv d vs : WfDoc d -> Inv (load_doc_views d vs).
+Proof. intros H. apply Inv_run; [apply load_Inv, H|apply hist_okb_create_views]. Qed.
+
+(* the initial states: Cas(), a loaded document, a loaded JSON document which declares views without a sofa *)
 Inductive Start : st -> Prop :=
 | start_empty : Start init_empty
-| start_doc d : wf_docb d = true -> Start (load_doc d).
+| start_doc d : wf_docb d = true -> Start (load_doc d)
+| start_doc_views d vs : wf_docb d = true -> Start (load_doc_views d vs).
 
 Lemma Start_Inv s : Start s -> Inv s.
-Proof. intros [|d Hd]; [apply Inv_init_empty|apply load_Inv, wf_docb_spec, Hd]. Qed.
+Proof.
+  intros [|d Hd|d vs Hd]; [apply Inv_init_empty|apply load_Inv, wf_docb_spec, Hd|apply load_views_Inv, wf_docb_spec, Hd].
+Qed.
+
+(* what the reader's create_view calls do: the FS and the sofas of the document stay, every sofa added lies beyond the
+   bounds M / N the generators had passed, the generators only move up *)
+Lemma create_views_above (M N : Z) vs : forall s, M < next_id s -> N < next_num s ->
+  let s1 := run s (map OpCreateView vs) in
+  next_id s <= next_id s1 /\ next_num s <= next_num s1 /\ fss s1 = fss s /\ incl (sofas s) (sofas s1) /\
+  forall x, In x (sofas s1) -> In x (sofas s) \/ (M < s_id x /\ N < s_num x).
+Proof.
+  induction vs as [|v r IH]; intros s HM HN; cbv zeta.
+  - cbn [map run fold_left]. repeat split; try lia. + apply incl_refl. + intros x Hx. left. exact Hx.
+  - change (run s (map OpCreateView (v :: r))) with (run (fst (create_view v s)) (map OpCreateView r)).
+    unfold create_view. destruct (existsb (fun x => String.eqb (s_name x) v) (sofas s)); cbn [fst].
+    + apply IH; assumption.
+    + set (s' := mkSt (next_id s + 1) (next_num s + 1) (sofas s ++ [mkSofa (next_id s) (next_num s) v]) (fss s)).
+      destruct (IH s') as (H1 & H2 & H3 & H4 & H5); [cbn [s' next_id]; lia|cbn [s' next_num]; lia|].
+      cbn [s' next_id next_num fss sofas] in H1, H2, H3, H4, H5. repeat split; try lia.
+      * exact H3.
+      * intros x Hx. apply H4, in_or_app. left. exact Hx.
+      * intros x Hx. destruct (H5 x Hx) as [Hin|Hab]; [|right; exact Hab].
+        apply in_app_or in Hin. destruct Hin as [Hin|[<-|[]]]; [left; exact Hin|right]. cbn [s_id s_num]. lia.
+Qed.
+
+(* a JSON document which declares views without a sofa: the FS keep the ids of the document, its sofas stay, and every
+   sofa the reader creates takes an id beyond every id of the document (FS and sofas) and a sofaNum beyond every sofaNum
+   of the document; both generators end beyond the document *)
+Theorem sofaless_views d vs :
+  let s := load_doc_views d vs in
+  fss s = fss (load_doc d) /\ incl (sofas (load_doc d)) (sofas s) /\
+  doc_max_id d < next_id s /\ doc_max_num d < next_num s /\
+  forall x, In x (sofas s) -> In x (sofas (load_doc d)) \/ (doc_max_id d < s_id x /\ doc_max_num d < s_num x).
+Proof.
+  cbv zeta. unfold load_doc_views.
+  assert (HM : doc_max_id d < next_id (load_doc d)) by (unfold load_doc; cbn [next_id]; destruct (has_init (d_sofas d)); lia).
+  assert (HN : doc_max_num d < next_num (load_doc d)) by (unfold load_doc; cbn [next_num]; destruct (has_init (d_sofas d)); lia).
+  destruct (create_views_above (doc_max_id d) (doc_max_num d) vs (load_doc d) HM HN) as (H1 & H2 & H3 & H4 & H5).
+  repeat split; try assumption; lia.
+Qed.
 
 (* ------------------------------------------------------------------ forced duplicates are detected *)
 
